@@ -60,6 +60,9 @@ type responseWriter struct {
 	header      http.Header
 	wroteHeader bool
 	chunkWriter io.WriteCloser
+	// what the header block that was sent announced; fields the handler sets afterwards never reach the peer
+	delimited bool // Content-Length or Transfer-Encoding: the response is self-delimiting
+	trailer   bool // Trailer
 }
 
 func (r *responseWriter) Request() *http.Request {
@@ -82,6 +85,8 @@ func (r *responseWriter) WriteHeader(statusCode int) {
 		if !r.request.ProtoAtLeast(1, 1) {
 			r.Header().Del("Transfer-Encoding")
 		}
+		r.delimited = r.Header().Get("Content-Length") != "" || r.Header().Get("Transfer-Encoding") != ""
+		r.trailer = r.Header().Get("Trailer") != ""
 		fmt.Fprintf(r.writer, "HTTP/%d.%d %d OK\r\n", r.request.ProtoMajor, r.request.ProtoMinor, statusCode)
 		for key, values := range r.Header() {
 			for _, value := range values {
@@ -133,7 +138,7 @@ func (r *responseWriter) Close() (err error) {
 
 	if nil != r.chunkWriter {
 		err = r.chunkWriter.Close()
-		if nil == err && r.Header().Get("Trailer") == "" {
+		if nil == err && !r.trailer {
 			// no trailer
 			_, err = fmt.Fprint(r.writer, "\r\n")
 		}
@@ -160,9 +165,6 @@ func (r *responseWriter) shouldClose() bool {
 		return true
 	}
 
-	header := r.Header()
-	if header.Get("Content-Length") == "" && header.Get("Transfer-Encoding") == "" {
-		return true
-	}
-	return false
+	// decided by the header that was sent, not by what the handler has put into the map since
+	return !r.delimited
 }
